@@ -41,6 +41,9 @@ func Spaces(tier string) []Space {
 			{"L2s-mbc", alphaL2s, "k /*é*/", ";", 6, 2},
 			{"L2s-mbq", alphaL2s, "k 'é'+", ";", 6, 2},
 			{"L2s-tail", alphaL2s, "\t\tk \"a", "\"; q r;", 6, 2},
+			{"L2s-mbk", alphaL2s, "é ", ";", 6, 2},
+			{"L2s-mbd", alphaL2s, "k \"é\"+", ";", 6, 2},
+			{"L2s-mbs", alphaL2s, "u \"é\"; k ", ";", 6, 2},
 		}
 	}
 	return []Space{
@@ -56,6 +59,11 @@ func Spaces(tier string) []Space {
 		// inside a double-quoted string that opens beyond two tabs, with another statement after the
 		// closing quote on the same line
 		{"L2s-tail", alphaL2s, "\t\tk \"a", "\"; q r;", 5, 2},
+		// a multi-byte rune in the keyword, in an earlier double-quoted piece and in an earlier statement
+		// on the line of an opening quote
+		{"L2s-mbk", alphaL2s, "é ", ";", 5, 2},
+		{"L2s-mbd", alphaL2s, "k \"é\"+", ";", 5, 2},
+		{"L2s-mbs", alphaL2s, "u \"é\"; k ", ";", 5, 2},
 	}
 }
 
